@@ -70,8 +70,10 @@ def gen_case(rng, size):
             ops.append(rng.choice(['minkey', 'maxkey']))
         elif r < 0.93:
             ops.append(rng.choice(['len', 'keys', 'values', 'items']))
-        elif r < 0.95:
+        elif r < 0.945:
             ops.append('saveload %d' % rng.choice([0, 4, rng.randrange(2 ** 48), 2 ** 63]))
+        elif r < 0.95:
+            ops.append('pickle')        # the other save/load path: __getstate__ / __setstate__
         elif r < 0.96:
             ops.append('clear')
             present.clear()
@@ -190,6 +192,11 @@ def run_real(ops, tmpdir):
                 d = fsIndex.load(fn)
                 ix = d['index']
                 r = 'pos=%d [%s]' % (d['pos'], ','.join('%s:%d' % (k.hex(), v) for k, v in ix.items()))
+            elif t[0] == 'pickle':
+                import pickle
+                proto = 2 + len(out) % 3
+                ix = pickle.loads(pickle.dumps(ix, proto))
+                r = 'pos=0 [%s]' % ','.join('%s:%d' % (k.hex(), v) for k, v in ix.items())
             elif t[0] == 'bucketstr':
                 b = ix._data.get(p64(int(t[1], 16))[:6])
                 r = 'none' if b is None else b.toString().hex()
@@ -265,12 +272,62 @@ def run_oracle(ops):
                 r = '%s %s' % (hex8(ks[i]), hex8(ks[i + 1]) if i + 1 < len(ks) else 'none')
         elif t[0] == 'saveload':
             r = 'pos=%d [%s]' % (int(t[1]), ','.join('%s:%d' % (hex8(k), d[k]) for k in ks))
+        elif t[0] == 'pickle':
+            r = 'pos=0 [%s]' % ','.join('%s:%d' % (hex8(k), d[k]) for k in ks)
         elif t[0] == 'bucketstr':
             r = None        # internal observable: the oracle has no opinion
         else:
             r = 'bad-op'
         out.append(r)
     return out
+
+
+def full_bucket_probe(tmpdir):
+    """Oracle-only probe at the size boundary of the format (too large for the interpreted model driver;
+    save_load_id is proved for every size): one bucket holding ALL 65536 suffixes of a prefix, one holding
+    65535, both save/load paths, bounded queries at the bucket edges.  Returns None or (what, detail)."""
+    import pickle
+    from ZODB.fsIndex import fsIndex
+    d = {}
+    for s in range(65536):
+        d[(5 << 16) + s] = (s * 7919) % (2 ** 48)
+    for s in range(65535):
+        d[(9 << 16) + s] = s + 1
+    d[(2 ** 48 - 1 << 16) + 0xffff] = 2 ** 48 - 1
+    ix = fsIndex()
+    ix.update(dict((p64(k), v) for k, v in d.items()))
+    want = sorted(d.items())
+
+    def same(j, how):
+        got = [(u64(k), v) for k, v in j.items()]
+        if got != want:
+            bad = [x for x in zip(got, want) if x[0] != x[1]][:1]
+            return ('%s of an index with a full 65536-entry bucket: %d items instead of %d%s'
+                    % (how, len(got), len(want), (', first difference %r' % (bad,)) if bad else ''), how)
+        if len(j) != len(want):
+            return ('%s: len() is %d for %d items' % (how, len(j), len(want)), how)
+        return None
+    try:
+        r = same(ix, 'update()')
+        if r:
+            return r
+        fn = os.path.join(tmpdir, 'full.index')
+        ix.save(777, fn)
+        ld = fsIndex.load(fn)
+        if ld['pos'] != 777:
+            return ('save/load: position %r instead of 777' % (ld['pos'],), 'save/load')
+        r = same(ld['index'], 'save/load') or same(pickle.loads(pickle.dumps(ix, 3)), 'pickle round trip')
+        if r:
+            return r
+        for k, want_min in (((5 << 16) + 0xffff, (5 << 16) + 0xffff), ((6 << 16), (9 << 16)),
+                            ((9 << 16) + 0xffff, (2 ** 48 - 1 << 16) + 0xffff)):
+            got = u64(ld['index'].minKey(p64(k)))
+            if got != want_min:
+                return ('minKey(%x) after save/load returned %x, a sorted dictionary returns %x'
+                        % (k, got, want_min), 'minkey')
+    except Exception as e:
+        return ('an index with a full 65536-entry bucket: %s: %s' % (type(e).__name__, str(e)[:200]), 'raised')
+    return None
 
 
 def first_oracle_diff(real, orc):
@@ -312,7 +369,7 @@ def main(argv=None):
     # model: one driver run for all cases ("clear" between cases is part of the protocol)
     allops = []
     for ops in cases:
-        allops += ['clear'] + ops
+        allops += ['clear'] + ['saveload 0' if op == 'pickle' else op for op in ops]
     model_out = run_driver('FsIndex', allops)
     pos = 0
     for ops in cases:
@@ -342,6 +399,11 @@ def main(argv=None):
             j = [k for k in range(len(ops)) if real[k] != mo[k]][0]
             ck.mismatch('model/impl differ at op %r: impl %s model %s' % (ops[j], real[j], mo[j]),
                         dict(ops=ops[:j + 1], real=real[:j + 1], model=mo[:j + 1]))
+    pr = full_bucket_probe(ck.tmp)
+    ck.count('probe:full-bucket')
+    if pr is not None:
+        ck.violation('C19:full-bucket:' + pr[1].replace(' ', '-').replace('/', '-'), pr[0],
+                     dict(probe='full_bucket_probe', what=pr[0]))
     ck.finish(rule='seeded random op sequences over clustered keys (few 6-byte prefixes, dense '
                    'suffixes, prefixes 0 and 2^48-1), queries at every key +-1 and absent prefixes; '
                    'non-trivial = at least 2 prefixes present when a bounded minKey/maxKey query '
